@@ -27,6 +27,7 @@ import (
 	"github.com/jamf/regatta/replication"
 	"github.com/jamf/regatta/storage"
 	"github.com/jamf/regatta/storage/table/fsm"
+	sm "github.com/lni/dragonboat/v4/statemachine"
 
 	"verifharness/internal/cluster"
 	"verifharness/internal/ev"
@@ -108,6 +109,10 @@ func main() {
 			fmt.Fprintln(os.Stderr, "replay:", err)
 			os.Exit(2)
 		}
+		if w.Case.Scenario == "overlapping-rounds" {
+			runOverlappingRounds(r, w.Case.Seed)
+			r.Finish()
+		}
 		if w.Case.Scenario == "fsm-capture" {
 			for i := 0; i < 20 && r.Violations() == 0; i++ {
 				if why, _, err := fsmx.CaptureUnderWrites(w.Case.Seed, fsm.SnapshotRecoveryType(i%2), 1000, 2+i%3); err == nil && why != "" {
@@ -133,6 +138,13 @@ func main() {
 	for i, sc := range list {
 		runScenario(r, caseID{sc, r.Seed*1_000_003 + int64(i)})
 	}
+	// overlapping replication rounds (what two follower nodes propose around a lease hand-over: the
+	// round of the node that lost the lease is committed after the new holder's): every leader
+	// command takes effect once, in leader order, and the recorded index never moves backwards
+	for i, n := 0, r.Pick(300, 5000); i < n; i++ {
+		runOverlappingRounds(r, r.Seed*9_000_003+int64(i))
+	}
+	r.FloorCount("overlapping_rounds_applied", int64(r.Pick(2000, 30000)))
 	// what a recovering follower is sent: table streams taken from the leader's state machine while
 	// it applies writes back to back must be the leader's state at the index they declare (the
 	// follower records that index and resumes the log behind it)
@@ -973,4 +985,98 @@ func tail(ws []write, n int) []string {
 		}
 	}
 	return out
+}
+
+// runOverlappingRounds feeds a follower state machine the sequences the replication workers of two
+// nodes would propose for one leader log when their rounds overlap.
+func runOverlappingRounds(r *ev.Run, seed int64) {
+	g := rand.New(rand.NewSource(seed))
+	n := 20 + g.Intn(60)
+	var log []*pb.Command
+	states := []*model.Table{model.NewTable()}
+	m := model.NewTable()
+	for i := 1; i <= n; i++ {
+		k := []byte(keys[g.Intn(len(keys))])
+		tag := []byte(fmt.Sprintf("l%d", i))
+		var c *pb.Command
+		switch g.Intn(4) {
+		case 0: // toggle
+			c = &pb.Command{Table: []byte("t"), Type: pb.Command_TXN, Txn: &pb.Txn{Compare: []*pb.Compare{{Key: k}},
+				Success: []*pb.RequestOp{{Request: &pb.RequestOp_RequestDeleteRange{RequestDeleteRange: &pb.RequestOp_DeleteRange{Key: k}}}},
+				Failure: []*pb.RequestOp{{Request: &pb.RequestOp_RequestPut{RequestPut: &pb.RequestOp_Put{Key: k, Value: tag}}}}}}
+		case 1:
+			c = &pb.Command{Table: []byte("t"), Type: pb.Command_DELETE, Kv: &pb.KeyValue{Key: k}}
+		case 2:
+			c = &pb.Command{Table: []byte("t"), Type: pb.Command_DUMMY} // a Raft-internal entry of the leader
+		default:
+			c = &pb.Command{Table: []byte("t"), Type: pb.Command_PUT, Kv: &pb.KeyValue{Key: k, Value: tag}}
+		}
+		li := uint64(i)
+		c.LeaderIndex = &li
+		log = append(log, c)
+		m.Apply(uint64(i), c)
+		states = append(states, m.Clone())
+	}
+	t, err := fsmx.Fresh("t", fsm.SnapshotRecoveryType(g.Intn(2)))
+	if err != nil {
+		r.Inconclusive("fsm: " + err.Error())
+		return
+	}
+	defer t.Close()
+	var rounds []string
+	recorded, idx := uint64(0), uint64(0)
+	for recorded < uint64(n) {
+		// a round starts behind what its node had read (possibly stale: up to 12 entries back) and
+		// carries 1..15 leader entries
+		back := 0
+		if g.Intn(2) == 0 {
+			back = g.Intn(13)
+		}
+		from := int(recorded) + 1 - back
+		if from < 1 {
+			from = 1
+		}
+		to := from + g.Intn(15)
+		if to > n {
+			to = n
+		}
+		last := uint64(to)
+		seq := &pb.Command{Table: []byte("t"), Type: pb.Command_SEQUENCE, LeaderIndex: &last}
+		for j := from; j <= to; j++ {
+			seq.Sequence = append(seq.Sequence, log[j-1])
+		}
+		idx++
+		rounds = append(rounds, fmt.Sprintf("entry %d: SEQUENCE of leader entries %d..%d (recorded before: %d)", idx, from, to, recorded))
+		if _, err := t.Update([]sm.Entry{fsmx.Entry(idx, seq)}); err != nil {
+			r.Violation("update-error", err.Error(), witness{Case: caseID{Scenario: "overlapping-rounds", Seed: seed}})
+			return
+		}
+		d, err := t.Dump()
+		if err != nil {
+			r.Inconclusive("dump: " + err.Error())
+			return
+		}
+		w := witness{Case: caseID{Scenario: "overlapping-rounds", Seed: seed}, Config: strings.Join(rounds[max(0, len(rounds)-6):], " | ")}
+		if d.Leader < recorded {
+			r.Violation("recorded-leader-index-moved-backwards", fmt.Sprintf("[overlapping rounds] recorded leader index moved backwards from %d to %d after %s", recorded, d.Leader, rounds[len(rounds)-1]), w)
+			return
+		}
+		if d.Leader > uint64(n) {
+			r.Violation("follower-state-is-not-leader-state-at-recorded-index", fmt.Sprintf("[overlapping rounds] recorded leader index %d is beyond the leader log (%d entries)", d.Leader, n), w)
+			return
+		}
+		if why := fsmx.DiffContent(d, states[d.Leader]); why != "" {
+			r.Violation("follower-state-is-not-leader-state-at-recorded-index", fmt.Sprintf("[overlapping rounds] after %s the follower records leader index %d but %s", rounds[len(rounds)-1], d.Leader, why), w)
+			return
+		}
+		if back > 0 {
+			r.Count("overlapping_rounds_applied", 1)
+		}
+		recorded = d.Leader
+		if len(rounds) > 400 {
+			r.Inconclusive("overlapping rounds do not make progress")
+			return
+		}
+	}
+	r.Eval(1)
 }
